@@ -507,7 +507,7 @@ class JSON(Term):
         if ctx.dialect == Dialects.MYSQL:
             json_sql = json_sql.replace("\\", "\\\\")
         sql = format_quotes(json_sql, quote_char)
-        return format_alias_sql(sql, self.alias, ctx)
+        return format_alias_sql(sql, self.alias, ctx) if ctx.with_alias else sql
 
     def get_json_value(self, key_or_index: str | int) -> "BasicCriterion":
         return BasicCriterion(
